@@ -364,9 +364,12 @@ impl Sim {
         };
         // C12: the realtime clock is read first, the monotonic clock second, nothing else.
         obs.order_checks += 1;
-        let order_ok = reads.len() == 2 && reads[0].clk == libc::CLOCK_REALTIME && reads[1].clk != libc::CLOCK_REALTIME;
+        // The monotonic reading must follow the realtime reading (how many reads there are is free).
+        let last_real = reads.iter().rposition(|e| e.clk == libc::CLOCK_REALTIME);
+        let last_mono = reads.iter().rposition(|e| e.clk != libc::CLOCK_REALTIME);
+        let order_ok = matches!((last_real, last_mono), (Some(r), Some(m)) if r < m);
         if !order_ok && (prop == "C12") {
-            violation(violations, a, "C12", "client-read-order", format!("now() read the clocks in the order {:?} (expected CLOCK_REALTIME then the monotonic clock)", reads.iter().map(|e| e.clk).collect::<Vec<_>>()), json!({"history": history}));
+            violation(violations, a, "C12", "client-read-order", format!("now() read the clocks in the order {:?} (the monotonic clock must be read after CLOCK_REALTIME)", reads.iter().map(|e| e.clk).collect::<Vec<_>>()), json!({"history": history}));
         }
         let t_read = reads.iter().find(|e| e.clk == libc::CLOCK_REALTIME).map(|e| e.t);
         let st = status_num(r.clock_status);
